@@ -135,6 +135,8 @@ def generate(rng, tier, focus):
             p = scen.rand_chain(rng, op("dematerialize", [], mid(["cold", 0])), rng.choice([0, 0, 1]), names=["map", "tap"])
             s0 = ms + rng.choice([[], [n(["mn", 9])]])           # no terminal of its own: Observable::create returns
             cases.append((scn(srcs=[src([s0], False)], handles=1, script_=[sub(0, p)]), {"k": "demat-cold"}))
+    import common
+    cases += common.conn_stress(rng, 2400 if thorough else 400)
     return cases
 
 
